@@ -5,7 +5,7 @@ import sys
 
 def main(argv):
     if len(argv) < 2:
-        print(__doc__)
+        sys.__stdout__.write("%s\n" % __doc__)
         return 2
     from . import driver
     cmd = argv[1]
@@ -16,11 +16,11 @@ def main(argv):
         return selftest.main(argv[2:])
     pid = cmd.upper()
     if pid not in driver.CHECK_IDS:
-        print(f"unknown check {cmd}; known: {driver.CHECK_IDS}")
+        sys.__stdout__.write("%s\n" % f"unknown check {cmd}; known: {driver.CHECK_IDS}")
         return 2
     tier = argv[2] if len(argv) > 2 else os.environ.get("VERIF_TIER", "quick")
     if tier not in ("quick", "thorough"):
-        print(f"unknown tier {tier}")
+        sys.__stdout__.write("%s\n" % f"unknown tier {tier}")
         return 2
     seed = int(os.environ.get("VERIF_SEED", "0") or 0)
     budget = os.environ.get("VERIF_BUDGET_S")
